@@ -76,10 +76,16 @@ class TorModel(object):
         kind, oid, ev = self.decode(e)
         self.log = []
         if kind == 'C':
-            kw = {'BUILD_FLAGS': 'NEED_CAPACITY', 'PURPOSE': 'GENERAL', 'TIME_CREATED': '2024-01-01T00:00:00.000000'}
+            if ev in (C_LAUNCHED, C_EXT1):
+                # an onion-service client circuit in its early life: carries HS_STATE / REND_QUERY, which later events
+                # (after Tor re-purposed it to GENERAL) no longer repeat
+                kw = {'BUILD_FLAGS': 'NEED_CAPACITY', 'PURPOSE': 'HS_CLIENT_REND', 'HS_STATE': 'HSCR_CONNECTING',
+                      'REND_QUERY': 'onionaddressonionaddr', 'TIME_CREATED': '2024-01-01T00:00:00.000000'}
+            else:
+                kw = {'BUILD_FLAGS': 'NEED_CAPACITY', 'PURPOSE': 'GENERAL', 'TIME_CREATED': '2024-01-01T00:00:00.000000'}
             if ev == C_LAUNCHED:
                 self.gen += 1
-                self.circ[oid] = {'status': 'LAUNCHED', 'path': [], 'gen': self.gen, 'flags': kw, 'purpose': 'GENERAL'}
+                self.circ[oid] = {'status': 'LAUNCHED', 'path': [], 'gen': self.gen, 'flags': kw, 'purpose': kw['PURPOSE']}
                 self.log = [('circuit_new', oid), ('circuit_launched', oid)]
                 path = None
             else:
@@ -107,6 +113,7 @@ class TorModel(object):
                     self.log = [('circuit_failed', oid, 'TIMEOUT')]
                 c['status'] = CNAMES[ev]
                 c['flags'] = kw
+                c['purpose'] = kw['PURPOSE']
                 path = c['path']
                 if ev in (C_CLOSED, C_FAILED):
                     del self.circ[oid]
